@@ -71,7 +71,10 @@ structure Node where
   ty     : ItemTy
   name   : Option Str := none
   /-- `Node.export` -/
-  export : Option Str := none
+  exportName : Option Str := none
+  /-- for a definition whose type is an alias of a type defined by another definition node:
+      that node (the encoder then re-exports the index of the earlier export) -/
+  defAlias : Option Nat := none
   /-- incoming edges `(weight, source)` in petgraph adjacency order -/
   inc    : List (EdgeW × Nat) := []
   /-- targets of the outgoing edges in petgraph adjacency order (`graph.neighbors(n)`) -/
